@@ -1,7 +1,7 @@
 // tsolver_driver: drives the theory solvers of a logic through TSolverHandler (the object THandler
 // forwards to) with declare / assert / backtrack / check sequences given on stdin (C22, C11).
 //   logic <name>
-//   sort|fun|var|num|mk ...      build terms (as terms_driver)
+//   sort|arrsort|fun|var|num|mk ...  build terms (as terms_driver; arrsort <name> <index sort> <element sort>)
 //   atom <id>                    declare the atom of term <id>
 //   assert <id> <0|1>            assert the atom with a polarity (one backtrack point per literal)
 //   check <0|1>                  incomplete / complete check
@@ -73,6 +73,12 @@ int main() {
                 std::cout << "{\"op\":\"sort\"}" << std::endl;
                 continue;
             }
+            if (cmd == "arrsort") {
+                std::string name, idx, elem; is >> name >> idx >> elem;
+                sorts[name] = logic.getArraySort(sortByName(logic, sorts, idx), sortByName(logic, sorts, elem));
+                std::cout << "{\"op\":\"sort\"}" << std::endl;
+                continue;
+            }
             if (cmd == "fun") {
                 std::string name, ret; is >> name >> ret;
                 vec<SRef> args; std::string a;
@@ -97,6 +103,8 @@ int main() {
                     if (op == "=") res = logic.mkEq(std::move(args));
                     else if (op == "not") res = logic.mkNot(args[0]);
                     else if (op == "distinct") res = logic.mkDistinct(std::move(args));
+                    else if (op == "select") res = logic.mkSelect(std::move(args));
+                    else if (op == "store") res = logic.mkStore(std::move(args));
                     else if (op.rfind("uf:", 0) == 0) res = logic.mkUninterpFun(funs.at(op.substr(3)), std::move(args));
                     else if (not alogic) throw std::runtime_error("no arithmetic in this logic");
                     else if (op == "+") res = alogic->mkPlus(std::move(args));
